@@ -17,6 +17,8 @@ from pyvc.contract import Contract, Loop, Lemma, Group
 from pyvc.engine import PyRaise, Source
 
 DEC = 'dashlive/server/requesthandler/decorators.py'
+CSRF_BOOLS = ('cookie_present', 'cookie_empty', 'token_used', 'issued_for_cookie', 'issued_for_service', 'issued_for_origin',
+              'unmodified', 'strict_origin', 'origin_header')
 BOOLS = ('authenticated', 'is_admin', 'in_group', 'token_in_json', 'token_in_args', 'token_in_form', 'is_post', 'is_put', 'is_json',
          'csrf_ok', 'ajax', 'has_next_url')
 
@@ -24,6 +26,9 @@ BOOLS = ('authenticated', 'is_admin', 'in_group', 'token_in_json', 'token_in_arg
 def world():
     w = {b: z3.Bool(b) for b in BOOLS}
     w['has_payload'] = z3.Or(w['is_post'], w['is_put'])
+    for b in CSRF_BOOLS:
+        w[b] = z3.Bool(b)
+    w['recorded'] = lambda st: z3.BoolVal(len(st.added) == 1)
     w['__bases__'] = {}
     return w
 
@@ -131,6 +136,141 @@ class MethodText:
 CSRF = [csrf_contract(False), csrf_contract(True)]
 
 
+# ----------------------------------------------------------------------------- CsrfProtection.check (token algebra)
+CSRF_PY = 'dashlive/server/requesthandler/csrf.py'
+CSRF_BOOLS = ('cookie_present', 'cookie_empty', 'token_used', 'issued_for_cookie', 'issued_for_service', 'issued_for_origin',
+              'unmodified', 'strict_origin', 'origin_header')
+
+
+class TokenText:
+    """the submitted token text: 8 characters of salt followed by the signature text.  Whether the signature part is the
+    HMAC of (this cookie, this service[, this origin], its salt) is symbolic: issued_for_cookie / _service / _origin /
+    unmodified (HMAC-SHA1 is assumed injective and unforgeable: equal texts iff equal inputs)"""
+
+    def __init__(self, part='all'):
+        self.part = part
+
+    def getslice(self, eng, lo, hi):
+        if lo is None and hi == 8:
+            return TokenText('salt')
+        if lo == 8 and hi is None:
+            return TokenText('sig')
+        raise Unsupported('token slice')
+
+    def compare(self, eng, op, other, swapped):
+        w = eng.world
+        if self.part == 'sig' and isinstance(other, SigText) and isinstance(op, (ast.Eq, ast.NotEq)):
+            parts = other.parts
+            # the computed signature covers: cookie, service, [origin when strict], the token's own salt
+            ok = [w['unmodified'], w['issued_for_cookie'], w['issued_for_service']]
+            if 'origin' in parts:
+                ok.append(w['issued_for_origin'])
+            if 'cookie' not in parts or 'service' not in parts or 'salt' not in parts:
+                ok.append(z3.BoolVal(False))          # a signature that leaves one of them out proves nothing
+            eq = z3.And(*ok)
+            return z3.Not(eq) if isinstance(op, ast.NotEq) else eq
+        raise Unsupported('token comparison')
+
+
+class SigText:
+    def __init__(self, parts):
+        self.parts = parts
+
+
+class Hmac:
+    def __init__(self, parts):
+        self.parts = list(parts)
+
+    def method(self, eng, name, args, kwargs, e):
+        if name == 'update':
+            self.parts.append(args[0])
+            return None
+        if name == 'digest':
+            return SigText(list(self.parts))
+        raise Unsupported(f'hmac.{name}')
+
+
+class Cookies:
+    def getitem(self, eng, key):
+        w = eng.world
+        if not eng.branch(w['cookie_present']):
+            raise PyRaise('KeyError')
+        return CookieText()
+
+
+class CookieText:
+    def truthy(self):
+        return z3.Not(z3.Bool('cookie_empty'))
+
+
+class TokenStore:
+    """Token.get_one(jti=t, token_type=CSRF) / db.session.add(Token(jti=t, ...)): the set of used tokens, observed at t only"""
+
+    def __init__(self):
+        self.added = []
+
+
+def csrf_check_contract():
+    def env(w):
+        return {'cls': Opaque('class:CsrfProtection'), 'service': 'service', 'csrf_token': Opaque('quoted-token'),
+                '__store__': TokenStore(), 'KEY_LIFETIMES': {'csrf': TD(z3.IntVal(3600 * 10**6))}}
+
+    def tag(name):
+        return lambda eng, e, a, kw: name
+
+    def bytes_of(eng, e, a, kw):
+        v = a[0]
+        return {'CookieText': 'cookie', 'TokenText': 'salt'}.get(type(v).__name__, v if isinstance(v, str) else 'other')
+
+    def get_one(eng, e, a, kw):
+        return Opt(z3.Not(eng.world['token_used']), Obj('Token', {}))
+
+    def add(eng, e, a, kw):
+        eng.lookup('__store__').added.append(a[0])
+
+    class Headers:
+        def getitem(self, eng, key):
+            if not eng.branch(eng.world['origin_header']):
+                raise PyRaise('KeyError')
+            return 'origin'
+    accepted = 'cookie_present and not cookie_empty and not token_used and unmodified and issued_for_cookie and issued_for_service ' \
+               'and (issued_for_origin or not strict_origin)'
+    return Contract(
+        key=f'{CSRF_PY}:CsrfProtection.check', props=['C15'], env=env,
+        models={'attr:flask.request.cookies': lambda eng: Cookies(), 'attr:cls.CSRF_COOKIE_NAME': lambda eng: 'csrf',
+                'attr:CsrfProtection.CSRF_COOKIE_NAME': lambda eng: 'csrf',
+                'urllib.parse.unquote': lambda eng, e, a, kw: TokenText(), 'str': lambda eng, e, a, kw: a[0],
+                'attr:flask.request.headers': lambda eng: Headers(), 'attr:flask.request.url': lambda eng: Opaque('url'),
+                'urllib.parse.urlparse': lambda eng, e, a, kw: Obj('Url', {'scheme': 'http', 'netloc': 'host'}),
+                "'{}://{}'.format": lambda eng, e, a, kw: 'origin',
+                'Token.get_one': get_one, 'datetime.datetime.now': lambda eng, e, a, kw: DT(z3.Int('now_us')),
+                'db.session.add': add, 'db.session.commit': lambda eng, e, a, kw: None,
+                'attr:Token.CSRF_SALT_LENGTH': lambda eng: 8,
+                'attr:TokenType.CSRF.value': lambda eng: 'csrf', 'attr:TokenType.CSRF': lambda eng: 'csrf',
+                "cfg.get('STRICT_CSRF_ORIGIN', 'False').lower": lambda eng, e, a, kw: StrictText(),
+                "attr:flask.current_app.config": lambda eng: {'DASH': {'CSRF_SECRET': 'secret'}},
+                'hmac.new': lambda eng, e, a, kw: Hmac(a[:2]), 'bytes': bytes_of, 'attr:hashlib.sha1': lambda eng: 'sha1',
+                'base64.b64encode': lambda eng, e, a, kw: a[0]},
+        ctors={'Token': lambda eng, a, kw: Obj('Token', dict(kw))},
+        raises={'CsrfFailureException': f'not ({accepted})'},
+        ensures=[('accepted_token_is_recorded_as_used', 'recorded(__store__)')],
+        post_on_raise={'CsrfFailureException': [('a_fresh_token_is_burnt_even_if_wrong',
+                                                 'recorded(__store__) == (cookie_present and not cookie_empty and not token_used)')]},
+        canaries=['False'],
+        witness_terms=lambda w: (lambda ev: {b: ev(z3.Bool(b)) for b in CSRF_BOOLS}),
+    )
+
+
+class StrictText:
+    def compare(self, eng, op, other, swapped):
+        if other == 'true' and isinstance(op, ast.Eq):
+            return eng.world['strict_origin']
+        raise Unsupported('strict flag comparison')
+
+
+CSRF_CHECK = csrf_check_contract()
+
+
 # ----------------------------------------------------------------------------- guard table (from the AST, every run)
 RH = 'dashlive/server/requesthandler/'
 MEDIA = ('login_required', 'permission=models.Group.MEDIA')
@@ -169,14 +309,17 @@ GUARD_LEMMAS = [guard_lemma(*g) for g in GUARDS]
 
 GROUP = Group(
     name='auth', world=lambda: dict(world(), ran=lambda r: z3.BoolVal(bool(r.f.get('from_handler')))),
-    contracts=LOGIN + JWT_LOGIN + CSRF, lemmas=GUARD_LEMMAS,
+    contracts=LOGIN + JWT_LOGIN + CSRF + [CSRF_CHECK], lemmas=GUARD_LEMMAS,
     assumptions=[
         'C15: flask.views.MethodView applies the class attribute `decorators` (and Python applies method decorators) to every '
         'request for the handler: framework / language semantics, not verified',
         'C15: current_user / jwt_current_user carry is_authenticated, is_admin and has_permission(group) of the requesting '
         'user (flask_login / flask_jwt_extended, not verified); needs_login_response / jsonify_no_content build 401 responses',
         'C15: "state unchanged" is reduced to "handler body not entered"',
+        'C15: CsrfProtection.check: HMAC-SHA1 over (secret, cookie, service[, origin], salt) is injective and unforgeable - the '
+        'submitted signature equals the computed one iff the token is unmodified and was issued for this cookie, service (and '
+        'origin in strict mode); the store of used tokens is observed at the submitted token only; quote / unquote are inverse',
     ],
-    not_covered=['the handler bodies (what they change), JWT / session establishment, the CSRF token algebra '
-                 '(CsrfProtection.generate_token / check: HMAC, store of used tokens), token pruning, uses_* loaders'],
+    not_covered=['the handler bodies (what they change), JWT / session establishment, CsrfProtection.generate_token '
+                 '(the issuing side), token pruning, uses_* loaders'],
 )
